@@ -50,6 +50,33 @@ def write_nodes(cfg, fn, param, kind):
     return out
 
 
+def contraction_removed_from_all_edges(mn):
+    """merge_nodes pops networkx's 'contraction' attribute from every edge of the surviving node: a loop over ``<graph>.edges(..)``
+    whose body pops it under no condition (a pop restricted to some of the edges leaves it on the others)"""
+    from ..normalize import _enclosing
+    for l_ in walk_no_nested(mn):
+        if isinstance(l_, ast.For) and isinstance(l_.iter, ast.Call) and call_name(l_.iter) == 'edges':
+            for c_ in ast.walk(l_):
+                if isinstance(c_, ast.Call) and call_name(c_) == 'pop' and c_.args and isinstance(c_.args[0], ast.Constant) and \
+                        c_.args[0].value == 'contraction':
+                    _, conds_ = _enclosing(c_, mn)
+                    # conditions that enclose the whole loop are fine; conditions inside the loop restrict the edges
+                    inner = [x for x in conds_ if any(x is y or getattr(x, '_orig', None) is y for z in ast.walk(l_) if isinstance(z, ast.If) for y in ast.walk(z.test))]
+                    nested_if = any(isinstance(p_, ast.If) for p_ in _ancestors_until(c_, l_))
+                    if not nested_if:
+                        return True
+    return False
+
+
+def _ancestors_until(node, stop):
+    out = []
+    p = getattr(node, '_parent', None)
+    while p is not None and p is not stop:
+        out.append(p)
+        p = getattr(p, '_parent', None)
+    return out
+
+
 def run(prog, rep):
     rep.extra['explanation'] = (
         'Guard dominance of the identity-property tests over every property write (CFG of each public mutator), key-set '
@@ -422,9 +449,7 @@ def run(prog, rep):
     # already existed on both sides; that bookkeeping (a dict keyed by internal ids) must not stay in the model
     if cn:
         no_store = any(k.arg == 'store_contraction_as' and isinstance(k.value, ast.Constant) and k.value.value is None for k in cn[0].keywords)
-        edge_clean = any(isinstance(l_, ast.For) and isinstance(l_.iter, ast.Call) and call_name(l_.iter) == 'edges' and
-                         any(isinstance(c_, ast.Call) and call_name(c_) == 'pop' and c_.args and isinstance(c_.args[0], ast.Constant) and
-                             c_.args[0].value == 'contraction' for c_ in ast.walk(l_)) for l_ in walk_no_nested(mn))
+        edge_clean = contraction_removed_from_all_edges(mn)
         node_clean = any(isinstance(c_, ast.Call) and call_name(c_) == 'clear' and '.nodes[' in ast.unparse(expand(c_.func.value, aenv)) for c_ in walk_no_nested(mn))
         rep.instance('R5', f'{fq}: contraction bookkeeping removed from the node: {node_clean or no_store}; from the merged edges: {edge_clean or no_store}')
         if not (no_store or (edge_clean and node_clean)):
